@@ -7,6 +7,7 @@ concrete environment events it consumed (so that the Gallina model can be run on
 Runs under /venv/bin/python, PYTHONPATH=/repo:/verif/harness.
 """
 import hashlib
+import signal
 import warnings
 
 warnings.simplefilter("ignore")
@@ -49,6 +50,10 @@ def canon_log(net, lo):
 
 
 def run_case(c):
+    if any(op.get("cmds_range", [0, 0, 0])[1] > 1000 for op in c["ops"]):
+        # a 65 537-command schedule: seconds on an idle machine; the harness's per-case alarm (a backstop --
+        # a loop that never ends is normally caught by the script running out of selects) is extended
+        signal.alarm(600)
     net = scpsim.Net(make_policy(c["policy"]))
     restore = net.install(scp_connection)
     try:
